@@ -123,6 +123,17 @@ class _VecPy(PyReader):
     def hook_method(self, base, attr, args, kwargs, n):
         if isinstance(base, _Vec) and attr == "doit":
             return base
+        if isinstance(base, _Vec) and attr == "atoms" and not kwargs and all(isinstance(a_, tuple) and len(a_) == 2 and a_[0] == "class" for a_ in args):
+            # SymPy: the atomic sub-expressions of the requested classes; a cross product is no atom, its operands' atoms are
+            def atoms_of(v_):
+                return [x_ for o_ in v_.cross_of for x_ in atoms_of(o_)] if v_.cross_of is not None else [v_]
+            from ..pyreader import PySet
+            wanted = {a_[1] for a_ in args}
+            out_ = PySet()
+            if not wanted or wanted & {"VectorSymbol", "AppliedVectorFunction", "VectorExpr"}:
+                for x_ in atoms_of(base):
+                    out_[x_] = True
+            return out_
         if isinstance(base, (T, int)) and not isinstance(base, bool) and attr == "diff" and 1 <= len(args) <= 2 and isinstance(args[0], T) and args[0].op == "var" and not kwargs \
                 and self.stub_is_vector_expr:
             # a scalar that was BUILT here (an evaluated product) is differentiated: formally fine, but the receiver is no operand (R5's business)
@@ -201,8 +212,9 @@ class _VecPy(PyReader):
         return NotImplemented
 
     def global_value(self, n):
-        if isinstance(n, ast.Name) and n.id in ("VectorDot", "VectorCross", "VectorMixedProduct", "VectorNorm") and n.id not in self.functions:
-            return ("class", n.id)  # a product class handed on as a value: product(*operands)
+        if isinstance(n, ast.Name) and n.id in ("VectorDot", "VectorCross", "VectorMixedProduct", "VectorNorm", "VectorSymbol", "AppliedVectorFunction", "VectorDerivative", "VectorExpr") \
+                and n.id not in self.functions:
+            return ("class", n.id)  # a class handed on as a value: product(*operands), v.atoms(VectorSymbol)
         return super().global_value(n)
 
     def apply_value(self, fval, args, n, fns, kwargs=None):
@@ -400,17 +412,23 @@ def _r2_products(run: Run, mod) -> None:
             run.sample({"product": cname, "accumulation": "identity"})
         # the same with a compound (non-atomic) vector among the sorted operands, at EVERY position (identity order puts a cross product anywhere):
         # the term is then built by the evaluating constructors
-        for pos in range(arity):
+        for pos in list(range(arity)) + (["own-operands"] if arity == 3 else []):
             run.ob("R2", f"{cname}:accumulation:compound-operand@{pos}")
-            comp = _Vec(t_cross(gvec("m"), gvec("n")), cross_of=(_Vec(gvec("m")), _Vec(gvec("n"))))
+            mv, nv = _Vec(gvec("m")), _Vec(gvec("n"))
+            comp = _Vec(t_cross(gvec("m"), gvec("n")), cross_of=(mv, nv))
             others = [_Vec(gvec(x)) for x in "qr"[:arity - 1]]
+            if pos == "own-operands":
+                # mixed(m x n, m x n ... ) style degeneracies: the remaining operands are built from the SAME symbols as the cross product - (m x n, m, n) is not coplanar
+                pos = 0
+                others = [mv, nv]  # mixed(m x n, m, n) = |m x n|^2
             plus2 = tuple(others[:pos] + [comp] + others[pos:])
             rd2 = _VecPy(methods, f"{cname}.__new__[compound@{pos}]", depth_limit=8)
             rd2.hook_log = []
             rd2.log_hooks = True
             rd2.ordered = {1: {plus2: k1}}
             try:
-                got2 = rd2.call("__new__", [("class", cname)] + operands, {"evaluate": True})
+                # the operands handed to the constructor ARE the vectors of the sorted term (code that looks at the operands before asking _ordered_mul sees the same vectors)
+                got2 = rd2.call("__new__", [("class", cname)] + list(plus2), {"evaluate": True})
                 want2 = scaled(prod[cname](*[x.comps for x in plus2]), k1)
                 g2 = got2.comps if isinstance(got2, _Vec) else got2
                 if not _eq(g2, want2):
